@@ -88,26 +88,39 @@ def repetition_caps(prog, rep, RID):
             except SyntaxError:
                 pass
         equivalent_form = False
-        if not (txt == want or same_poly) and cname == "kFlowDecompCycles":
-            # the same provider in another shape: a dict over the edges whose value is, case by case, the edge's own flow value or w_max
-            # (which case applies to which edge is decided by the premises rule: own flow only for non-ignored edges carrying the attribute)
+        if cname == "kFlowDecompCycles":
+            # a dict over the edges whose value is, case by case, the edge's own flow value (which case applies to which edge is decided by
+            # the premises rule: own flow only for non-ignored edges carrying the attribute) or, for ignored / attribute-less edges, a bound
+            # on the traversals of any walk of weight >= 1: |E| + sum of the non-ignored flow values.  w_max (k * largest flow) is not
+            # such a bound: one walk may cross an ignored cycle edge once per cycle that returns through it.
             from rules.common import expr_cases
-            from rules.bounds import _resolve
+            from rules.bounds import _resolve, expand_get
             try:
                 e_ = _ast.parse(txt, mode="eval").body
             except SyntaxError:
                 e_ = _resolve(g, v)
-            from rules.bounds import expand_get
             e_ = expand_get(e_)
-            if isinstance(e_, _ast.DictComp) and len(e_.generators) == 1 and "self.G.edges" in norm(e_.generators[0].iter):
-                vals = [norm(x) for _, x in expr_cases(e_.value)]
-                ok_vals = [t for t in vals if t == "self.w_max" or re.fullmatch(r"[\w.\[\], ()]+\[self\.flow_attr\]", t)]
-                if len(ok_vals) == len(vals) and any(t != "self.w_max" for t in vals):
-                    equivalent_form = True
-                elif any(isinstance(x, _ast.Constant) for _, x in expr_cases(e_.value)):
-                    equivalent_form = False
-                else:
-                    raise AnalysisError(f"{cname}.__init__: cannot classify the repetition cap `{txt[:100]}`")
+            if not (isinstance(e_, _ast.DictComp) and len(e_.generators) == 1 and "self.G.edges" in norm(e_.generators[0].iter)):
+                raise AnalysisError(f"{cname}.__init__: the repetition cap `{txt[:100]}` is not a dict over the edges of self.G")
+            ldefs = _lsd(g.node)
+            vals = [norm(ldefs.get(x.id, x)) if isinstance(x, _ast.Name) else norm(x) for _, x in expr_cases(e_.value)]
+            own = [t for t in vals if re.fullmatch(r"[\w.\[\], ()]+\[self\.flow_attr\]", t)]
+            other = [t for t in vals if t not in own]
+            structural = [t for t in other if "number_of_edges()" in t and "sum(" in t and "edges_to_ignore" in t and "flow_attr" in t]
+            if own and other and len(structural) == len(other):
+                equivalent_form = True
+                txt = txt[:60] + " ... "
+            elif any(t == "self.w_max" for t in other):
+                rep.violation(RID, key, f"ignored and attribute-less edges are capped at `self.w_max` (k times the largest non-ignored flow value): that is no bound on the "
+                              "traversals of a walk, which may cross an ignored cycle edge once per cycle returning through it (s->h, h->l0/l1/l2->x, x->h ignored, x->t: "
+                              "k=1 is kInfeasible and MinFlowDecompCycles returns 2 walks); a structural bound is |E| + sum of the non-ignored flow values", g.loc(sup[0]))
+                continue
+            elif any(isinstance(x, _ast.Constant) for _, x in expr_cases(e_.value)):
+                equivalent_form = False
+            else:
+                raise AnalysisError(f"{cname}.__init__: cannot classify the repetition cap `{txt[:100]}`")
+            same_poly = False
+            want = None
         if txt == want or same_poly or equivalent_form:
             rep.ok(RID, key, f"{kw} = {txt[:80]} ({why})", g.loc(sup[0]), sample={"class": cname, "cap": txt[:120]})
         else:
@@ -134,4 +147,6 @@ def check(prog, rep):
     rep.rule("C04.R10", "solver noise of a float generating set does not reach the given-weights model as coefficients", floor=1)
     from rules.values import generating_set_as_weights
     generating_set_as_weights(prog, rep, "C04.R10", "MinFlowDecompCycles")
+    from rules.values import candidate_weights_exclude_ignored, subgraph_windows_guarded
+    candidate_weights_exclude_ignored(prog, rep, "C04.R10", "MinFlowDecompCycles")
 
